@@ -391,7 +391,7 @@ def distribution(run):
 
 def input_of(run, case, table=None):
     c = jl(os.path.join(run["dir"], "cases.jsonl"))[case]
-    r = {"models": c["models"], "tag": c["tag"],
+    r = {"models": c["models"], "tag": c["tag"], "config": c.get("config"),
          "how_to_replay": "write each table to models/<name>.json and run `vespertide export --orm <orm>`, or ./vf replay Cnn <this file>"}
     if table is not None:
         r["table"] = c["models"][table]["name"]
@@ -403,7 +403,7 @@ def write_corpus_replay(path_dir, models):
     json.dump({"models": models}, open(os.path.join(path_dir, "replay.json"), "w"))
 
 
-def replay_run(prop, models=None, action=None):
+def replay_run(prop, models=None, action=None, config=None):
     """A run directory that holds only the replay input (as a one-file corpus)."""
     rc, out, binp = vflib.build_harness(PKG, ws=WS)
     if rc != 0:
@@ -413,7 +413,7 @@ def replay_run(prop, models=None, action=None):
     shutil.rmtree(d, ignore_errors=True)
     os.makedirs(os.path.join(d, "corpus"))
     if models is not None:
-        json.dump({"models": models}, open(os.path.join(d, "corpus", "replay.json"), "w"))
+        json.dump({"models": models, "config": config} if config else {"models": models}, open(os.path.join(d, "corpus", "replay.json"), "w"))
     if action is not None:
         json.dump({"action": action}, open(os.path.join(d, "corpus", "replay_action.json"), "w"))
     rc, out, _ = vflib.sh([binp, "gen", "--seed", "1", "--n", "0", "--disp", "0", "--evolutions", "0", "--out", d, "--corpus", os.path.join(d, "corpus")])
